@@ -50,6 +50,28 @@ class LifeScenario(cmdscn.CmdScenario):
         return key, []
 
 
+from checks import c08 as _c08      # noqa: E402
+
+
+class LifePolicyScenario(_c08.PolicyScenario):
+    """The lifecycle oracles over runs whose tasks carry policies (delays,
+    timers that may fire while other events are in flight, retries,
+    with-items / sub-workflow tasks under policies) and operator commands."""
+
+    def spec(self):
+        return ('checks.c03', 'LifePolicyScenario', self.kwargs())
+
+    def setup(self):
+        env.install_state_monitor()
+        _c08.PolicyScenario.setup(self)
+
+    def check_step(self, pre, post, choice, ctx):
+        return LifeScenario.check_step(self, pre, post, choice, ctx)
+
+    def check_terminal(self, snap, ctx):
+        return LifeScenario.check_terminal(self, snap, ctx)
+
+
 def programs():
     T, direct = wfgen.T, wfgen.direct
     C = wfgen.curated()
@@ -180,6 +202,21 @@ def scenarios(tier):
                     jobs.append((common.variant(scn, '/overlap', **kw1),
                                  0 if quick else 1, 30 if quick else 900,
                                  1))
+    # the policy programs of C08 (timers may fire while other events are in
+    # flight) under the lifecycle oracles, with stop / pause+resume / a late
+    # result issued at every point
+    for name, prog, res, extra in _c08.programs(tier):
+        if 'menu' in extra:
+            continue
+        if quick and not name.startswith(('items_', 'sub_', 'wait_',
+                                          'timeout', 'pair_', 'fail_on')):
+            continue
+        for mname in (('stop', 'pause_resume') if quick
+                      else ('stop', 'pause_resume', 'late_result')):
+            scn = LifePolicyScenario(
+                'policy/%s/%s' % (name, mname), prog, results=res,
+                **dict(extra, **MENUS[mname]))
+            jobs.append((scn, 0 if quick else 1, 30 if quick else 900, 1))
     return jobs
 
 
@@ -187,7 +224,7 @@ def main(tier):
     rep = common.Report(PROP, tier)
     n, tv = lifecycle.states_table_violations()
     jobs = common.rotate(scenarios(tier))
-    deadline = time.time() + (170 if tier == 'quick' else 1500)
+    deadline = time.time() + (270 if tier == 'quick' else 1500)
     res = common.parallel_map(common.explore_job, jobs, deadline=deadline)
     rep.add_explore_results(jobs, res)
     rep.extra = {'state_pairs_checked_against_statement_table': n}
